@@ -120,7 +120,8 @@ class Body:
         self.argc = raw["argc"]
         self.n = len(self.blocks)
         self.is_coroutine = bool(raw.get("coroutine"))
-        self.captures = raw.get("captures")
+        # precise captures print as `id__namespace` for the place `id.namespace`
+        self.captures = [c.replace("__", ".") for c in raw["captures"]] if raw.get("captures") is not None else None
         self._succ = None
         self._pred = None
         self._defs = None
@@ -219,27 +220,91 @@ class Body:
         targets = set(targets)
         from collections import deque
 
+        corr = self.correlated_switches()
         prev = {}
         dq = deque()
         for s in starts:
             if s in removed_blocks:
                 continue
-            prev[s] = None
-            dq.append(s)
+            st = (s, frozenset())
+            prev[st] = None
+            dq.append(st)
         while dq:
-            b = dq.popleft()
+            st = dq.popleft()
+            b, dec = st
             if b in targets:
                 path = []
-                while b is not None:
-                    path.append(b)
-                    b = prev[b]
+                while st is not None:
+                    path.append(st[0])
+                    st = prev[st]
                 return list(reversed(path))
-            for d, _ in self.out_edges(b):
-                if (b, d) in removed_edges or d in removed_blocks or d in prev:
+            k = corr.get(b)
+            for d, lab in self.out_edges(b):
+                if (b, d) in removed_edges or d in removed_blocks:
                     continue
-                prev[d] = b
-                dq.append(d)
+                nd = dec
+                if k is not None:
+                    # a correlated pure condition must be decided the same way every time
+                    if any(kk == k and ll != lab for kk, ll in dec):
+                        continue
+                    nd = dec | {(k, lab)}
+                ns = (d, nd)
+                if ns in prev:
+                    continue
+                prev[ns] = st
+                dq.append(ns)
         return None
+
+    def cond_key(self, e, depth=0):
+        """Structural key of a *pure observer* condition (arguments, constants, field
+        projections, std length/emptiness/is_some observers); None when the value may differ
+        between two evaluations. Two switches with the same key are correlated."""
+        if depth > 8:
+            return None
+        tag = e[0]
+        if tag == "arg":
+            return ("arg", e[1], e[2])
+        if tag == "const":
+            return ("const", str(e[1]), e[2])
+        if tag == "un":
+            k = self.cond_key(e[2], depth + 1)
+            return None if k is None else ("un", e[1], k)
+        if tag == "bin":
+            a, b = self.cond_key(e[2], depth + 1), self.cond_key(e[3], depth + 1)
+            return None if a is None or b is None else ("bin", e[1], a, b)
+        if tag == "cast":
+            k = self.cond_key(e[1], depth + 1)
+            return None if k is None else ("cast", k)
+        if tag == "discr":
+            k = self.cond_key(e[1], depth + 1)
+            return None if k is None else ("discr", k)
+        if tag == "call":
+            tl = std_tail(e[2])
+            if tl in LEN_TAILS or tl in TRANSPARENT_TAILS or tl in ("Option::is_some", "Option::is_none", "Result::is_ok", "Result::is_err"):
+                ks = [self.cond_key(a, depth + 1) for a in e[3]]
+                if any(k is None for k in ks):
+                    return None
+                return ("call", tl, tuple(ks))
+        return None
+
+    def correlated_switches(self):
+        """switch block -> key, for keys shared by at least two switches whose observed
+        places are never written (arguments only)."""
+        memo = getattr(self, "_corr", None)
+        if memo is not None:
+            return memo
+        keys = {}
+        for b in range(self.n):
+            if self.blocks[b]["cl"] or self.blocks[b]["t"]["k"] != "switch":
+                continue
+            k = self.cond_key(self.switch_discr_expr(b))
+            if k is not None and any(x == "arg" for x in _flatten(k)):
+                keys[b] = k
+        cnt = {}
+        for b, k in keys.items():
+            cnt[k] = cnt.get(k, 0) + 1
+        self._corr = {b: k for b, k in keys.items() if cnt[k] >= 2}
+        return self._corr
 
     def render_path(self, path):
         """Human readable: locations of the branch decisions along a block path."""
@@ -585,6 +650,14 @@ def walk(e, seen=None):
             v = x[1]._expr_memo.get(x[2])
             if v is not None:
                 stack.append(v)
+
+
+def _flatten(k):
+    if isinstance(k, tuple):
+        for x in k:
+            yield from _flatten(x)
+    else:
+        yield k
 
 
 def arg_name(a):
